@@ -23,6 +23,12 @@ def run(tier, seed):
     extio.install(eng2)
     error_estimator.install_accumulation(eng2)
     verify_contracts(eng2, [c for c in error_estimator.accumulation_contracts if c.setup], chk)
+    from contracts import estimator_init
+    eng3 = common.new_engine(estimator_init.contracts, "C09")
+    arrays.install(eng3)
+    extio.install(eng3)
+    estimator_init.install(eng3)
+    guarded(chk, 'proved part estimator_init', verify_contracts, eng3, [c for c in estimator_init.contracts if c.setup], chk)
     from vlib import smt
     smt.close_pool()
     try:
